@@ -67,7 +67,7 @@ def plan(rnd, tid, nreq, buckets):
         size = rnd.choice([0, 1, 17, 1000, 70000])
         if x < 0.30 and rnd.random() < 0.2:
             key, size = "t%d/dirobj%d/" % (tid, i), 0        # an explicit directory object: its key ends with the slash
-        if x < 0.30: out.append({"op": "put", "bucket": bk, "key": key, "size": size}); mine.append((bk, key, size))
+        if x < 0.30: out.append({"op": "put" if rnd.random() < 0.7 or key.endswith("/") else rnd.choice(["put-chunked-signed", "put-chunked-trailer"]), "bucket": bk, "key": key, "size": size}); mine.append((bk, key, size))
         elif x < 0.40 and mine: s = rnd.choice(mine); out.append({"op": "copy", "bucket": bk, "key": key, "src": s})
         elif x < 0.48: out.append({"op": "mpu", "bucket": bk, "key": key, "size": max(size, 17)})
         elif x < 0.58 and mine: s = mine.pop(rnd.randrange(len(mine))); out.append({"op": "delete", "bucket": s[0], "key": s[1]})
@@ -100,6 +100,17 @@ def execute(cl, bad, rq):
     op, bk = rq["op"], rq["bucket"]; key = rq.get("key"); path = "/%s/%s" % (bk, key) if key else None
     if op in ("put", "put-nobucket"):
         b = body_for(key, rq["size"]); r = cl.req("PUT", path, body=b)
+        return r, [("s3:ObjectCreated:Put", bk, key, len(b), hashlib.md5(b).hexdigest())]
+    if op in ("put-chunked-signed", "put-chunked-trailer"):
+        # an aws-chunked upload: what is on the wire is longer than the object
+        from vlib import chunkenc
+        b = body_for(key, rq["size"]); chunks = [b[:len(b) // 2], b[len(b) // 2:]] if len(b) > 1 else ([b] if b else [])
+        hd = {"x-amz-decoded-content-length": str(len(b)), "content-encoding": "aws-chunked"}
+        if op == "put-chunked-trailer":
+            hd["x-amz-trailer"] = "x-amz-checksum-crc32"
+            r, _ = cl.req_streaming("PUT", path, lambda *a: chunkenc.encode_unsigned(chunks, "crc32"), headers=hd, payload_type="STREAMING-UNSIGNED-PAYLOAD-TRAILER")
+        else:
+            r, _ = cl.req_streaming("PUT", path, lambda sig, k, ad, d8, reg: chunkenc.encode_signed(chunks, k, sig, None, ad, d8, reg), headers=hd, payload_type="STREAMING-AWS4-HMAC-SHA256-PAYLOAD")
         return r, [("s3:ObjectCreated:Put", bk, key, len(b), hashlib.md5(b).hexdigest())]
     if op == "put-wrongsecret":
         r = bad.req("PUT", path, body=body_for(key, rq["size"])); return r, [("s3:ObjectCreated:Put", bk, key, None, None)]
@@ -236,8 +247,55 @@ def run(chk):
                 chk.tie("gateway still running (filter %d)" % fi, g.alive(), g.log_tail())
         finally:
             rc.close()
+    versioned_batches(chk, gwbin)
     if built:
         unit_and_model(chk, mcases)
+
+
+def versioned_batches(chk, gwbin):
+    """a versioned bucket: one DeleteObjects request that removes several versions of one key (and versions of other keys) is
+    announced once per removed version; a batch without version ids creates one delete marker per key, each announced"""
+    rc = Receiver()
+    try:
+        with gw.Site({"iam": False, "versioning": True}, name="c19v") as site:
+            g = site.gateway(gwbin, global_args=["--event-webhook-url", "http://127.0.0.1:%d/hook" % rc.port])
+            R = s3c.Client(g.port, "root", "rootsecret")
+            chk.require(R.req("PUT", "/evv").status == 200 and R.req("PUT", "/evv", query={"versioning": ""}, body=b"<VersioningConfiguration><Status>Enabled</Status></VersioningConfiguration>").status == 200, "c19:setup", "versioned bucket setup failed")
+            vids = {}
+            for k, n in (("doc", 3), ("other", 2), ("third", 1)):
+                for i in range(n):
+                    r = R.req("PUT", "/evv/" + k, body=b"v%d" % i); vids.setdefault(k, []).append(r.headers.get("x-amz-version-id"))
+            rc.settle(0.6); rc.take()
+            def events():
+                rc.settle(1.0, 10); out = []
+                for d in rc.take():
+                    for rec in json.loads(d).get("Records", []):
+                        o = rec["s3"]["object"]; out.append((rec.get("eventName"), o.get("key"), o.get("versionId") or ""))
+                return sorted(out)
+            # 1. several versions of one key in one request
+            named = [("doc", vids["doc"][0]), ("doc", vids["doc"][1]), ("other", vids["other"][0])]
+            body = "<Delete>" + "".join("<Object><Key>%s</Key><VersionId>%s</VersionId></Object>" % kv for kv in named) + "</Delete>"
+            r = R.req("POST", "/evv", query={"delete": ""}, body=body.encode())
+            deleted = sorted((d.findtext("Key"), d.findtext("VersionId") or "") for d in r.xml().findall("Deleted")) if r.status == 200 and r.xml() is not None else []
+            got = events()
+            chk.case(("versioned-batch", "several-versions-of-one-key"), True); chk.traces += 1
+            if sorted(deleted) != sorted(named):
+                chk.count("versioned-batch:not-all-deleted")
+            if [(k, v) for _, k, v in got] != deleted and sorted(k for _, k, _ in got) != sorted(k for k, _ in deleted):
+                chk.fail("c19:batch-of-versions:notifications-differ", "one DeleteObjects removed the versions %s; the notifications name %s" % (deleted, [(k, v) for _, k, v in got]),
+                         {"request": named, "deleted": deleted, "notifications": got})
+            # 2. a batch without version ids: one delete marker per key
+            body = "<Delete>" + "".join("<Object><Key>%s</Key></Object>" % k for k in ("doc", "other", "third")) + "</Delete>"
+            r = R.req("POST", "/evv", query={"delete": ""}, body=body.encode())
+            deleted = sorted(d.findtext("Key") for d in r.xml().findall("Deleted")) if r.status == 200 and r.xml() is not None else []
+            got = events()
+            chk.case(("versioned-batch", "markers"), True); chk.traces += 1
+            if sorted(k for _, k, _ in got) != deleted:
+                chk.fail("c19:batch-of-versions:notifications-differ", "one DeleteObjects (no version ids, versioned bucket) deleted %s; the notifications name %s" % (deleted, [(k, v) for _, k, v in got]),
+                         {"deleted": deleted, "notifications": got})
+            chk.tie("gateway still running (versioned batches)", g.alive(), g.log_tail())
+    finally:
+        rc.close()
 
 
 def unit_and_model(chk, mcases):
